@@ -96,7 +96,7 @@ fn admits(t: Option<&SingleOrVec<InstanceType>>, c: Class) -> bool {
     }
 }
 
-fn check_instance(a: Option<SingleOrVec<InstanceType>>, b: Option<SingleOrVec<InstanceType>>) {
+pub(crate) fn check_instance(a: Option<SingleOrVec<InstanceType>>, b: Option<SingleOrVec<InstanceType>>) {
     let ab = merge_so_instance_type(a.as_ref(), b.as_ref());
     let ba = merge_so_instance_type(b.as_ref(), a.as_ref());
     let mut both_any = false;
